@@ -314,9 +314,17 @@ Proof.
   - inversion H; subst. exact HL'.
 Qed.
 
+Lemma linv_xstep s te s' : LInv s -> xstep s te = Some s' -> LInv s'.
+Proof.
+  intros [L1 L2] H. pose proof (xstep_ws_sub _ _ _ H CF) as SUB. destruct te as [t e].
+  destruct (xstep_inv _ _ _ _ H) as (Et & _ & (Q & B & _) & _). cbn [ws] in SUB.
+  constructor; rewrite Et, ?Q, ?B; auto.
+  intros (u & Hu). apply L2. exists u. destruct Hu as [(A1 & A2)|A]; auto.
+Qed.
+
 Lemma linv_reachable cfg sp s : reachable cfg sp s -> LInv s.
 Proof.
-  induction 1 as [|s te s' R IH H]; [apply linv_init|].
+  induction 1 as [|s te s' R IH H|s te s' R IH H]; [apply linv_init| |eapply linv_xstep; eauto].
   eapply linv_step; eauto. eapply inv_reachable; eauto.
 Qed.
 
